@@ -172,7 +172,7 @@ package diagnostic
 //@                (= name (. fd Name Name))))))
 //@ define (keyPrefixOK pass c key k0) (or (= key k0) (exists ((fi Int) (di Int) (rest Str) (name Str)) (and (ownFunc pass c fi di name) (= key (strcat (strcat name ":") rest)))))
 //@ func groupConflicts
-//@ prop C13
+//@ prop C13 C18
 //@ loop 1 invariant prefix-names-the-conflicts-own-function (keyPrefixOK pass c key (strcat (strcat (. (local p) producerRepr) ";") (. (local p) consumerRepr)))
 //@ loop 2 invariant prefix-names-the-conflicts-own-function (and (keyPrefixOK pass c key (strcat (strcat (. (local p) producerRepr) ";") (. (local p) consumerRepr)))
 //@    (= (call |go.uber.org/nilaway/util/tokenhelper.RelToCwd| (. (posOf pass.Pass.Fset (. (local file) FileStart)) Filename)) (. c position Filename))
